@@ -32,7 +32,7 @@ from vcore import Failure, REPO
 
 PROP = "C20"
 RULE = (
-    "bounded-exhaustive: begin group/repeat x 6 label shapes x 7 appearances (field-list / table-list combinations) x 3 placements; every 3-choice list over 2 names x labeled/unlabeled x duplicates allowed or not; every subset of 3 translatable columns x {default, 2 languages} on the survey sheet and on the "
+    "bounded-exhaustive: settings sheets with form_id / id_string headers in both orders x each/both/neither cell filled; begin group/repeat x 6 label shapes x 7 appearances (field-list / table-list combinations) x 3 placements; every 3-choice list over 2 names x labeled/unlabeled x duplicates allowed or not; every subset of 3 translatable columns x {default, 2 languages} on the survey sheet and on the "
     "choices sheet (512 each per column triple, converted), every string within edit radius 1 of each supported sheet "
     "name over a 31-letter alphabet (+ samples of radius 2/3, case variants, underscore prefixes), language labels x "
     "bracketed-code shapes; random: generated forms with row-level triggers (disabled, comment rows, deprecated types, "
@@ -187,7 +187,7 @@ def run_impl(case: dict, warnings=None, sheet_names=None) -> dict:
         return {"class": "internal", "ok": False, "msg": "RecursionError"}
     except Exception as e:  # noqa: BLE001
         return {"class": "internal", "ok": False, "msg": f"{type(e).__name__}: {e}"}
-    return {"class": "ok", "ok": True, "xform": res.xform, "warnings": list(res.warnings)}
+    return {"class": "ok", "ok": True, "xform": res.xform, "warnings": list(res.warnings), "_survey": res._survey}
 
 
 XF = "{http://www.w3.org/2002/xforms}"
@@ -244,9 +244,13 @@ def strip_short_langs(obs: list) -> tuple[list, bool]:
 # --------------------------------------------------------------------------- one workbook case
 
 
-def workbook_case(ctx, case: dict, tag: str, advisory: bool = False):
+def workbook_case(ctx, case: dict, tag: str, advisory: bool = False, must_convert: str | None = None):
     r = run_impl(case)
     ctx.count(f"{tag}:impl_{r['class']}")
+    if not r["ok"] and must_convert:
+        # the same workbook without the warning's trigger converts: warnings never suppress the conversion result
+        ctx.fail(Failure("conversion-suppressed", f"{must_convert}: {r['class']}: {r['msg'][:200]}",
+                         {"kind": "workbook", "case": case, "must_convert": must_convert}, signature="advisory-abort"))
     if not r["ok"]:
         # no warnings are observable; errors are C17's business
         ctx.record({"wb": case}, False)
@@ -263,7 +267,7 @@ def workbook_case(ctx, case: dict, tag: str, advisory: bool = False):
         ctx.mismatch("model predicts an error, implementation converts", case, r["warnings"], m)
         ctx.record({"wb": case}, True)
         return r
-    ia = ctx.driver.call("warn.iana", langs=langs, tags=relevant_tags(langs))
+    ia = iana_from_model(ctx, case, r, langs)
     model_obs = m["model"] + ia["model"]
     spec_obs = m["spec"] + ia["spec"]
     for o in impl_obs:
@@ -295,6 +299,32 @@ def workbook_case(ctx, case: dict, tag: str, advisory: bool = False):
         advisory_case(ctx, case, r)
     ctx.record({"wb": case}, True)
     return r
+
+
+def iana_from_model(ctx, case, r, xform_langs):
+    """The IANA warning computed on the language set of the *model* (C07's itext model run on the built survey,
+    `warn.iana_survey`); outside that model's fragment the languages are read from the implementation's XForm."""
+    import itext_common as ic
+
+    cand = set(xform_langs)
+    for s_ in ("survey", "choices"):
+        for c in cols_of(case, s_):
+            cand.update(p.strip() for p in c.split("::")[1:])
+    for row in case.get("settings") or []:
+        cand.update(str(v) for v in row.values())
+    tags = relevant_tags(sorted(cand))
+    try:
+        x = ic.extract(r["_survey"])
+        v = ctx.driver.call("warn.iana_survey", survey=x, tags=tags)
+    except ic.Unsupported:
+        v = {"outcome": "unsupported"}
+    if v["outcome"] == "ok":
+        ctx.count("iana:languages_from_itext_model")
+        if v["langs"] != xform_langs:
+            ctx.count("iana:model_languages_differ_from_xform")
+        return v
+    ctx.count("iana:languages_from_xform")
+    return ctx.driver.call("warn.iana", langs=xform_langs, tags=relevant_tags(xform_langs))
 
 
 def advisory_case(ctx, case, r):
@@ -807,7 +837,35 @@ def section_label_enum(ctx):
                     case = {"survey": rows,
                             "choices": [{"list_name": "yn", "name": "y", "label": "Yes"}, {"list_name": "yn", "name": "n", "label": "No"}]}
                     ctx.count("section_enum:cases")
-                    workbook_case(ctx, case, "section_enum")
+                    workbook_case(ctx, case, "section_enum", must_convert="section with/without label, field-list / table-list appearance")
+
+
+def settings_id_enum(ctx):
+    """The duplicate form_id / id_string headers: which of the two headers are present x header order x which of
+    the two cells are filled x other settings cells.  The warning is about *headers*; a form whose twin without the
+    extra header converts must convert as well (the trigger only adds a warning)."""
+    base = {"survey": [{"type": "text", "name": "q", "label": "Q"}]}
+    ok0 = run_impl(dict(base, settings=[{"form_id": "fid"}]))["ok"]
+    for cols in (["form_id", "id_string"], ["id_string", "form_id"], ["form_id"], ["id_string"],
+                 ["form_title", "id_string", "version", "form_id"], ["form_id", "form_title", "id_string"]):
+        for fill in itertools.product((True, False), repeat=2):
+            for other in (True, False):
+                row = {}
+                for c in cols:
+                    if c == "form_id" and fill[0]:
+                        row[c] = "fid"
+                    elif c == "id_string" and fill[1]:
+                        row[c] = "ids"
+                    elif c == "form_title" and other:
+                        row[c] = "A title"
+                    elif c == "version" and other:
+                        row[c] = "3"
+                case = dict(base, settings=[row], settings_cols=list(cols))
+                ctx.count("settings_enum:cases")
+                workbook_case(ctx, case, "settings_enum", advisory=True,
+                              must_convert="settings sheet with form_id / id_string headers" if ok0 else None)
+    # two data rows, header-less dict input (headers guessed from the rows)
+    workbook_case(ctx, dict(base, settings=[{"form_id": "a"}, {"id_string": "b"}], settings_cols=["form_id", "id_string"]), "settings_enum")
 
 
 def directed_cases(ctx):
@@ -848,6 +906,7 @@ def explore(ctx, factor, bs):
     directed_cases(ctx)
     choice_list_enum(ctx)
     section_label_enum(ctx)
+    settings_id_enum(ctx)
     lev_cases(ctx, ctx.pick(3000, 40000) * factor)
     misspell_cases(ctx, factor)
     header_cases(ctx, ctx.pick(1500, 20000) * factor)
